@@ -260,7 +260,7 @@ static BlockParameters mk_bp(int p) {
 }
 static GenericQueryResponse mk_gqr(int id) {
     GenericQueryResponse g;
-    g.ts = Timestamp(100 + id, (id * 37 + 5) % 1000);     // ticks valid at every rate in use
+    if (id % 5 != 4) g.ts = Timestamp(100 + id, (id * 37 + 5) % 1000);     // ticks valid at every rate in use; every fifth record carries no time
     g.transaction_id = id;
     g.client_port = 1000 + id;
     g.client_ip = blk_ip(id % 2);
@@ -278,7 +278,7 @@ static bool same_gqr(GenericQueryResponse& g, int id) {
     return g.client_port == w.client_port && g.client_ip == w.client_ip && g.server_ip == w.server_ip &&
            g.query_name == w.query_name && g.query_classtype && *g.query_classtype == *w.query_classtype &&
            (!g.query_opcode || g.query_opcode == w.query_opcode) && (!g.response_rcode || g.response_rcode == w.response_rcode) &&
-           g.ts && g.ts->m_secs == w.ts->m_secs && g.ts->m_ticks == w.ts->m_ticks;
+           (w.ts ? (g.ts && g.ts->m_secs == w.ts->m_secs && g.ts->m_ticks == w.ts->m_ticks) : !g.ts);
 }
 static GenericAddressEventCount mk_gaec(int id) {
     GenericAddressEventCount a;
@@ -297,7 +297,7 @@ static int id_of_gaec(GenericAddressEventCount& a, bool& ok) {
 }
 static GenericMalformedMessage mk_gmm(int id) {
     GenericMalformedMessage m;
-    m.ts = Timestamp(200 + id, (id * 53 + 1) % 1000);
+    if (id % 4 != 3) m.ts = Timestamp(200 + id, (id * 53 + 1) % 1000);      // every fourth message carries no time
     m.client_port = 2000 + id;
     m.client_ip = blk_ip(id % 2);
     m.mm_payload = mk_string(id % 4);
@@ -307,7 +307,7 @@ static GenericMalformedMessage mk_gmm(int id) {
 static bool same_gmm(GenericMalformedMessage& g, int id) {
     GenericMalformedMessage w = mk_gmm(id);
     return g.client_port == w.client_port && g.client_ip == w.client_ip && g.mm_payload == w.mm_payload &&
-           g.server_port == w.server_port && g.ts && g.ts->m_secs == w.ts->m_secs && g.ts->m_ticks == w.ts->m_ticks;
+           g.server_port == w.server_port && (w.ts ? (g.ts && g.ts->m_secs == w.ts->m_secs && g.ts->m_ticks == w.ts->m_ticks) : !g.ts);
 }
 static std::size_t kind_count(CdnsBlock& b, const std::string& k) {
     return k == "qr" ? b.get_qr_count() : k == "aec" ? b.get_aec_count() : b.get_mm_count();
@@ -373,6 +373,18 @@ static void run_blk_history(const json& h)
     vh::trace().emit({{"e", "R"}});
     std::map<int, std::shared_ptr<B>> slots;
     std::map<int, int> ps;           // the parameters the application gave the block in each slot (a copy has its source's)
+    std::map<int, std::vector<std::pair<std::string, int>>> hist;      // the items of each slot's block, in the order they were added
+    // earliest time of a freshly built block with the same parameters that is given the same items in the same order
+    auto fresh_earliest_same = [&](int t) {
+        std::unique_ptr<B> f(new_block<B>(ps[t]));
+        for (auto& kv : hist[t]) {
+            if (kv.first == "qr") f->add_question_response_record(mk_gqr(kv.second));
+            else if (kv.first == "aec") f->add_address_event_count(mk_gaec(kv.second));
+            else f->add_malformed_message(mk_gmm(kv.second));
+        }
+        const Timestamp& a = f->m_block_preamble.earliest_time; const Timestamp& b = slots[t]->m_block_preamble.earliest_time;
+        return a.m_secs == b.m_secs && a.m_ticks == b.m_ticks;
+    };
     slots[1] = std::make_shared<B>();
     ps[1] = 0;
     for (auto& o : h["ops"]) {
@@ -384,11 +396,13 @@ static void run_blk_history(const json& h)
             if (k == "qr") full = b.add_question_response_record(mk_gqr(v));
             else if (k == "aec") full = b.add_address_event_count(mk_gaec(v));
             else full = b.add_malformed_message(mk_gmm(v));
-            vh::trace().emit({{"e", "I"}, {"t", t}, {"k", k}, {"v", v}, {"n", kind_count(b, k)}, {"full", full}});
+            hist[t].push_back({k, v});
+            vh::trace().emit({{"e", "I"}, {"t", t}, {"k", k}, {"v", v}, {"n", kind_count(b, k)}, {"full", full},
+                              {"fe", fresh_earliest_same(t)}});
         } else if (op == "new") {
             int t = o["t"], p = o["p"];
             slots[t] = std::shared_ptr<B>(new_block<B>(p));
-            ps[t] = p;
+            ps[t] = p; hist[t].clear();
             vh::trace().emit({{"e", "NB"}, {"t", t}, {"p", p}});
         } else if (op == "setp") {
             int t = o["t"], p = o["p"];
@@ -399,10 +413,12 @@ static void run_blk_history(const json& h)
         } else if (op == "clear") {
             int t = o["t"];
             slots[t]->clear();
+            hist[t].clear();
             vh::trace().emit({{"e", "CL"}, {"t", t}});
         } else if (op == "destroy") {
             int t = o["t"];
             slots[t].reset();
+            hist[t].clear();
             vh::trace().emit({{"e", "DS"}, {"t", t}});
         } else if (op == "copy") {
             int s = o["src"], d = o["dst"]; std::string how = o["how"];
@@ -422,6 +438,7 @@ static void run_blk_history(const json& h)
                 unlink(path.c_str());
             }
             ps[d] = ps[s];
+            hist[d] = hist[s];
             CdnsBlock& db = *slots[d];
             vh::trace().emit({{"e", "CP"}, {"src", s}, {"dst", d}, {"how", how}, {"foreign", foreign(db)},
                               {"counts", json::array({db.get_qr_count(), db.get_aec_count(), db.get_mm_count()})}});
@@ -433,10 +450,12 @@ static void run_blk_history(const json& h)
             vh::trace().emit(r);
         } else if (op == "ser") {
             int t = o["t"];
-            vh::trace().emit(serialised(*slots[t], t, ps[t]));
+            json sv = serialised(*slots[t], t, ps[t]);
+            sv["fe"] = fresh_earliest_same(t);
+            vh::trace().emit(sv);
         }
     }
-    for (auto& kv : slots) if (kv.second) vh::trace().emit(serialised(*kv.second, kv.first, ps[kv.first]));
+    for (auto& kv : slots) if (kv.second) { json sv = serialised(*kv.second, kv.first, ps[kv.first]); sv["fe"] = fresh_earliest_same(kv.first); vh::trace().emit(sv); }
 }
 
 int main(int argc, char** argv)
